@@ -80,14 +80,30 @@ static void Arm(const std::string& ctx)
 	alarm(10);
 }
 
+// The configured error mark: "def" = the constructor's default argument, "cust" = "<?>", "fffd" = U+FFFD, "null" = nullptr (skip silently)
+static const char* const kMarkKinds[4] = { "def", "cust", "fffd", "null" };
+template <class TChar> static const TChar* MarkPtr(int mk)
+{
+	static const TChar cust[] = { TChar('<'), TChar('?'), TChar('>'), 0 };
+	if (mk == 1) return cust;
+	if (mk == 2) {
+		if constexpr (sizeof(TChar) == 1) { static const TChar m[] = { TChar('\xEF'), TChar('\xBF'), TChar('\xBD'), 0 }; return m; }
+		else { static const TChar m[] = { TChar(0xFFFD), 0 }; return m; }
+	}
+	return nullptr;
+}
+
 // ChunkSize 0: the default template argument (256, or BITSERIALIZER_VERIF_ENC_CHUNK_SIZE when the hook is compiled in)
 template <class TChar, size_t ChunkSize>
-static std::string RunRead(const std::string& bytes, bool skip, const std::string& kind)
+static std::string RunRead(const std::string& bytes, bool skip, const std::string& kind, int mk)
 {
 	using TReader = std::conditional_t<ChunkSize == 0, Utf::CEncodedStreamReader<TChar>, Utf::CEncodedStreamReader<TChar, ChunkSize == 0 ? 32 : ChunkSize>>;
 	auto holder = vh::MakeStream(kind, bytes);
-	TReader reader(holder.get(), skip ? UtfEncodingErrorPolicy::Skip : UtfEncodingErrorPolicy::ThrowError);
-	std::string o = std::string("{\"tw\":") + std::to_string(sizeof(TChar) * 8) + ",\"skip\":" + (skip ? "true" : "false") +
+	const auto policy = skip ? UtfEncodingErrorPolicy::Skip : UtfEncodingErrorPolicy::ThrowError;
+	// two constructor call shapes: default argument / explicit mark
+	std::unique_ptr<TReader> readerPtr(mk == 0 ? new TReader(holder.get(), policy) : new TReader(holder.get(), policy, MarkPtr<TChar>(mk)));
+	TReader& reader = *readerPtr;
+	std::string o = std::string("{\"tw\":") + std::to_string(sizeof(TChar) * 8) + ",\"skip\":" + (skip ? "true" : "false") + ",\"mk\":\"" + kMarkKinds[mk] + "\"" +
 		",\"utf\":\"" + (bytes.empty() ? "unset" : UtfName(reader.GetSourceUtfType())) + "\"" +
 		",\"init\":[" + std::to_string(BitSerializerVerifAccess::Start(reader)) + "," + std::to_string(BitSerializerVerifAccess::End(reader)) + "],\"calls\":[";
 	std::basic_string<TChar> out;
@@ -111,14 +127,17 @@ static std::string RunRead(const std::string& bytes, bool skip, const std::strin
 	return o;
 }
 
+// The error mark is a dimension of every scenario: it rotates with the stream length and the target width, so that every truncation
+// class (which recurs for every filler count) meets every mark, without multiplying the number of runs.
 template <size_t ChunkSize>
 static std::string RunAllTargets(const std::string& bytes, const std::string& kind)
 {
 	std::string o;
+	const int rot = static_cast<int>(bytes.size());
 	for (int skip = 1; skip >= 0; --skip) {
-		o += RunRead<char, ChunkSize>(bytes, skip != 0, kind) + ",";
-		o += RunRead<char16_t, ChunkSize>(bytes, skip != 0, kind) + ",";
-		o += RunRead<char32_t, ChunkSize>(bytes, skip != 0, kind);
+		o += RunRead<char, ChunkSize>(bytes, skip != 0, kind, (rot + 0 + (skip ? 0 : 2)) % 4) + ",";
+		o += RunRead<char16_t, ChunkSize>(bytes, skip != 0, kind, (rot + 1 + (skip ? 0 : 2)) % 4) + ",";
+		o += RunRead<char32_t, ChunkSize>(bytes, skip != 0, kind, (rot + 2 + (skip ? 0 : 2)) % 4);
 		if (skip) o += ",";
 	}
 	return o;
